@@ -112,6 +112,7 @@ type osim struct {
 	lc      *nclifecycle.Controller
 	roundN  int
 	writes  int // successful API writes seen so far (fix-point detection)
+	lagged   [][2]string // objects whose last change the informers have not seen yet (kind, name)
 	rmu      sync.Mutex
 	starting string // command whose StartCommand is running: its replacement creates are recorded in arrival order
 
@@ -254,6 +255,16 @@ func (o *osim) memEvent() {
 	o.w.Emit(trace.M{"e": "OMem", "nodes": nodes, "queue": ids, "synced": o.cluster.Synced(o.ctx)})
 }
 
+// sync: the informers catch up - first with the changes that were held back (`lag`), then with everything stored.
+func (o *osim) sync() {
+	l := o.lagged
+	o.lagged = nil
+	for _, x := range l {
+		o.deliver(x[0], x[1], "")
+	}
+	o.hydrate()
+}
+
 func (o *osim) idOf(c *kdisruption.Command) string {
 	if id, ok := o.ids[c]; ok {
 		return id
@@ -374,7 +385,7 @@ func (o *osim) startCmd(st OStep) error {
 		}
 	}
 	if !st.Lag {
-		o.hydrate()
+		o.sync()
 	}
 	o.memEvent()
 	o.w.Emit(trace.M{"e": "End", "controller": "disruption.start", "object": st.Cmd, "err": short(errS), "panic": panicked,
@@ -405,7 +416,7 @@ func (o *osim) queueRecOne(st OStep, cmd *kdisruption.Command) {
 		outcome = "succeeded"
 	}
 	if !st.Lag {
-		o.hydrate()
+		o.sync()
 	}
 	o.memEvent()
 	o.w.Emit(trace.M{"e": "End", "controller": "disruption.queue", "object": id, "err": short(errS), "panic": panicked,
@@ -434,7 +445,7 @@ func (o *osim) runCleanup(st OStep) {
 	o.withPlan(st, func() {
 		errS, panicked = o.guarded(nil, func() error { _, e := o.cleanup.Reconcile(o.ctx); return e })
 	})
-	o.hydrate()
+	o.sync()
 	o.memEvent()
 	o.w.Emit(trace.M{"e": "End", "controller": "disruption.cleanup", "object": "-", "err": short(errS), "panic": panicked,
 		"started": false, "cands": []trace.M{}, "repl": []string{}, "outcome": "-"})
@@ -518,6 +529,8 @@ func (o *osim) launchEnv(nc *v1.NodeClaim, lag bool) {
 	})
 	if !lag {
 		o.deliver("NodeClaim", nc.Name, "")
+	} else {
+		o.lagged = append(o.lagged, [2]string{"NodeClaim", nc.Name})
 	}
 }
 
@@ -542,6 +555,8 @@ func (o *osim) initEnv(nc *v1.NodeClaim, lag bool) {
 	if !lag {
 		o.deliver("NodeClaim", nc.Name, "")
 		o.deliver("Node", nodeName, "")
+	} else {
+		o.lagged = append(o.lagged, [2]string{"NodeClaim", nc.Name}, [2]string{"Node", nodeName})
 	}
 }
 
@@ -614,6 +629,11 @@ func (o *osim) replStep(st OStep) {
 			if nodeName != "" {
 				o.deliver("Node", nodeName, "")
 			}
+		} else {
+			o.lagged = append(o.lagged, [2]string{"NodeClaim", nc.Name})
+			if nodeName != "" {
+				o.lagged = append(o.lagged, [2]string{"Node", nodeName})
+			}
 		}
 	}
 }
@@ -629,7 +649,7 @@ func (o *osim) quiescent(st OStep) {
 			o.launchEnv(&claims.Items[i], false)
 		}
 	}
-	o.hydrate()
+	o.sync()
 	for round := 0; round < 4; round++ {
 		before := o.writes
 		o.queueRec(OStep{Step: Step{A: "QueueRec"}})
@@ -659,6 +679,7 @@ func (o *osim) ostep(st OStep) error {
 		if err := o.sim.step(st.Step); err != nil {
 			return err
 		}
+		o.lagged = nil // a fresh process lists the API: nothing it knows is stale
 		o.fresh()
 		o.memEvent()
 	case "Round":
